@@ -71,6 +71,8 @@ class _AbstractOrderedSet(AbstractSet[T], Sequence[T]):  # noqa: PLW1641
         """
         if isinstance(index, slice):
             raise NotImplementedError("Slicing currently not supported.")
+        if index < 0:
+            index += len(self._items)
         for i, key in enumerate(self._items.keys()):
             if i == index:
                 return key
@@ -191,7 +193,8 @@ class _AbstractOrderedSet(AbstractSet[T], Sequence[T]):  # noqa: PLW1641
             if len(self) > len(other):  # type: ignore[arg-type]
                 return False
         except TypeError:
-            pass
+            # Not sized, e.g., a one-shot iterator: membership tests would consume it
+            other = set(other)
         return all(item in other for item in self)
 
     def issuperset(self, other: Iterable[T]) -> bool:
@@ -203,12 +206,9 @@ class _AbstractOrderedSet(AbstractSet[T], Sequence[T]):  # noqa: PLW1641
         Returns:
             True, if this is a superset of other.
         """
-        try:
-            # Fast check for obvious cases
-            if len(self) < len(other):  # type: ignore[arg-type]
-                return False
-        except TypeError:
-            pass
+        if isinstance(other, AbstractSet) and len(self) < len(other):
+            # Fast check for obvious cases; only valid if other has no duplicates
+            return False
         return all(item in self for item in other)
 
     def __xor__(self, other: Iterable[T]) -> Self:  # type: ignore[override]
@@ -229,8 +229,9 @@ class _AbstractOrderedSet(AbstractSet[T], Sequence[T]):  # noqa: PLW1641
             The symmetric difference.
         """
         cls = self.__class__
-        diff1 = cls(self).difference(other)
-        diff2 = cls(other).difference(self)
+        other_items = cls(other)  # materialise once, other may be a one-shot iterator
+        diff1 = cls(self).difference(other_items)
+        diff2 = other_items.difference(self)
         return diff1.union(diff2)
 
 
@@ -296,6 +297,7 @@ class OrderedSet(_AbstractOrderedSet[T], MutableSet[T]):
         Args:
             other: The other set.
         """
+        other = list(other)  # materialise once, other may be a one-shot iterator
         items_to_add = [item for item in other if item not in self]
         items_to_remove = cast("set[T]", set(other))
         self._items = {item: None for item in self._items if item not in items_to_remove}
